@@ -131,13 +131,17 @@ def biased(rng):
     return [mspec.normalize_stmt(s) for s in stmts], pr
 
 
-def witness_class(dfa_sx, wit):
-    """dfa_sx: parsed (dfa ...); wit: parsed (some s i j w)."""
+def witness_class(dfa_sx, wit, grammar_text):
+    """dfa_sx: parsed (dfa ...); wit: parsed (some s i j w).  The literal/literal mechanism is "the same
+    literal in different || branches gets different levels": it is only accepted as the explanation when
+    the two items differ in level and the grammar has a || at all."""
     inputs = dfa_sx[4][1:]
     ki = inputs[int(wit[2])][0]
     kj = inputs[int(wit[3])][0]
     kinds = sorted([ki, kj])
     if kinds == ['lit', 'lit']:
+        if '||' not in grammar_text or inputs[int(wit[2])][3] == inputs[int(wit[3])][3]:
+            return None
         return CLASS_LL
     if kinds == ['sub', 'sub']:
         return CLASS_SS
@@ -235,7 +239,7 @@ def run(ctx, res):
                 res.notes.append('witness of known finding %s is no longer ambiguous (the finding may be stale)' % cases[i][2])
             continue
         counters['decided_some'] += 1
-        cls = witness_class(dsx, w)
+        cls = witness_class(dsx, w, texts[i].decode('latin-1'))
         verdict[i] = cls
         inputs = dsx[4][1:]
         replay = dict(grammar=texts[i].decode('latin-1'), kind='spec-judgement',
@@ -306,7 +310,7 @@ def run(ctx, res):
             w2 = sexp.parse(amb2[n]) if not amb2[n].startswith('(drivererror') else ['none']
             cls = verdict[i]
             if cls is None and w2[0] == 'some':
-                cls = witness_class(sexp.parse(b['MIN'])[1], w2)
+                cls = witness_class(sexp.parse(b['MIN'])[1], w2, bt.decode('latin-1'))
             if cls is None and (subword_same_text(sexp.parse(a['MIN'])[1]) or subword_same_text(sexp.parse(b['MIN'])[1])):
                 cls = CLASS_LL
             for k, (ws, pre) in enumerate(q):
